@@ -192,6 +192,9 @@ pub struct World {
     pub inexact_iter: bool,
     /// merge sources report honest size hints instead of the default (0, None)
     pub src_hints: bool,
+    /// ordered adapter: pulled-but-not-yielded is also checked at the moment of each pull
+    pub ordered_adapter: bool,
+    pub adapter_yielded: u64,
     pub zst_created: i64,
     pub zst_dropped: i64,
 }
@@ -275,6 +278,8 @@ impl World {
             child_panics: 0,
             inexact_iter: false,
             src_hints: false,
+            ordered_adapter: false,
+            adapter_yielded: 0,
             zst_created: 0,
             zst_dropped: 0,
         }
